@@ -1,7 +1,7 @@
 """C09 — sleeping fibers wake exactly once and never early (structural part)."""
 from core import strip, is_field, key_str, key_mentions
 from facts import AnalysisBroken
-from rules import (field_load, nodeset, callpred, ev, Unevaluable, forced_edges, atom_from, one, some,
+from rules import (reach, field_load, nodeset, callpred, ev, Unevaluable, forced_edges, atom_from, one, some,
                    is_param_load, is_var_load, is_global_load)
 import stale
 from props import c01
@@ -170,6 +170,42 @@ def check_wake(ctx, P):
         o.ok("stack-resident types: %s" % sorted(sr))
 
 
+def check_wake_count(ctx, P):
+    pi = P.fn("fiber_poll_events_internal")
+    o = ctx.ob("wake.count", pi, "the number of ticks handed to fiber_event_wake_sleepers is the expiration count read from the timer descriptor, and the call is "
+               "made only when that read returned a whole count (8 bytes)",
+               "a tick invented on the path where another poller already drained the timer counts the same expiration twice: the sleep clock runs ahead of "
+               "real time and sub-tick sleeps return early")
+    ws = pi.calls("fiber_event_wake_sleepers")
+    if not ws:
+        raise AnalysisBroken("fiber_poll_events_internal: no call of fiber_event_wake_sleepers")
+    bad = None
+    isread = lambda c: c.k == "CallExpr" and ((c.indirect and pi.key(c.kids[0]) == ("glob", "fibershim_read")) or c.callee in ("read", "fibershim_read"))
+    for w in ws:
+        a = strip(pi.args(w)[1])
+        if not (a is not None and a.k == "DeclRefExpr" and a.dk == "local" and a.did):
+            bad = bad or ("the tick argument `%s` is not the count read from the timer" % pi.args(w)[1].text, w)
+            continue
+        evs_ = pi.defs().get(a.did, [])
+        reads = [e[1] for e in evs_ if e[0] == "addr" and isread(e[1])]
+        other = [e for e in evs_ if e[0] in ("assign", "mod") or (e[0] == "init" and strip(e[2]).cv != 0) or (e[0] == "addr" and not isread(e[1]))]
+        if not reads:
+            bad = bad or ("`%s` is never filled by a read of the timer descriptor" % a.name, w)
+            continue
+        if other:
+            bad = bad or ("`%s` is also set by `%s`, not only by the read of the timer descriptor" % (a.name, other[0][1].text[:50]), other[0][1])
+        for r in reads:
+            ra = pi.args(r)
+            if len(ra) < 3 or ra[2].cv != 8 or pi.key(ra[0], True) != ("glob", "timer_fd"):
+                bad = bad or ("`%s` does not read one 8-byte count from timer_fd" % r.text[:60], r)
+            for rv in (-1, 0, 4, 8):
+                got = reach(pi, [w], atom_from([(lambda n, r=r: n is r, rv)]), start=r)
+                if got != (rv == 8):
+                    bad = bad or ("after the timer read returned %d, fiber_event_wake_sleepers is %s" % (rv, "called" if got else "not called"), w)
+    o.check(bad is None, "%d wake call(s), count from a complete read" % len(ws), bad[0] if bad else None, site=bad[1] if bad else None,
+            construct="tick count not from the timer read")
+
+
 def check_tick(ctx, P):
     """units of the tick counter: it advances by u per timer expiration, expirations are T ms apart, sleepers add (ms + 1) and are woken by a
     strict comparison.  A sleeper registered just before a tick is woken at the k-th tick after it, k = floor((ms+1)/u) + 1, having slept
@@ -237,6 +273,7 @@ def check_early(ctx, P):
     o.check(bad is None, "16-case table", bad, site=rm.loc, construct="remove comparison")
 
     check_tick(ctx, P)
+    check_wake_count(ctx, P)
     fs = P.fn("fiber_sleep")
     o = ctx.ob("early.width", fs, "the deadline added to the tick counter is at least seconds*1000 + useconds/1000 + 1 for every 32-bit "
                "(seconds, useconds), computed without wrap-around, and the node's wake tick is tick counter + that value",
